@@ -34,6 +34,8 @@ Wide = {wide}
 Reindexes = {{{reindexes}}}
 ByDasks = {{{bydasks}}}
 NLabels2 = {nlabels2}
+ArrDasks = {{{arrdasks}}}
+Engines = {{{engines}}}
 Names = {{{names}}}
 """
 
@@ -48,18 +50,20 @@ def _workdir(td):
 
 
 def simulate(n: int, seed: int, *, maxlen=5, minlen=None, nlabels=3, se=2, wide=True, names=NAMES, timeout=900,
-             reindexes=("none", "true", "false"), bydasks=(False, True), nlabels2=2) -> tuple[list, dict]:
+             reindexes=("none", "true", "false"), bydasks=(False, True), nlabels2=2,
+             arrdasks=(True, True, False), engines=("none", "numpy", "flox", "numbagg")) -> tuple[list, dict]:
     """n behaviours of Flox.tla (one TLC -simulate run, single worker: PrintT lines stay whole)"""
     cfg = CFG.format(maxlen=maxlen, minlen=maxlen if minlen is None else minlen, nlabels=nlabels, se=se,
                      wide="TRUE" if wide else "FALSE", names=", ".join(json.dumps(x) for x in names),
-                     reindexes=", ".join(json.dumps(x) for x in reindexes), bydasks=", ".join("TRUE" if b else "FALSE" for b in bydasks), nlabels2=nlabels2)
+                     reindexes=", ".join(json.dumps(x) for x in reindexes), bydasks=", ".join("TRUE" if b else "FALSE" for b in bydasks), nlabels2=nlabels2,
+                     arrdasks=", ".join(sorted({"TRUE" if b else "FALSE" for b in arrdasks})), engines=", ".join(json.dumps(x) for x in engines))
     cfg += "INVARIANT Emit\nINVARIANT Inv_Result\nINVARIANT Inv_CleanRefusal\nINVARIANT Inv_AutoPlanSound\n"
     os.makedirs("/verif/out/work", exist_ok=True)
     with tempfile.TemporaryDirectory(prefix="flox-sim-", dir="/verif/out/work") as td:
         _workdir(td)
         open(os.path.join(td, "Flox.cfg"), "w").write(cfg)
         cmd = ["java", "-Xmx1500m", "-XX:+UseParallelGC", "-cp", JAR, "tlc2.TLC", "-workers", "1", "-metadir", os.path.join(td, "m"),
-               "-noGenerateSpecTE", "-config", "Flox.cfg", "-simulate", f"num={n}", "-depth", str(maxlen + 6), "-seed", str(seed), "Flox.tla"]
+               "-noGenerateSpecTE", "-config", "Flox.cfg", "-simulate", f"num={n}", "-depth", str(maxlen + 9), "-seed", str(seed), "Flox.tla"]
         try:
             p = subprocess.run(cmd, cwd=td, stdout=subprocess.PIPE, stderr=subprocess.STDOUT, text=True, timeout=timeout)
             out = p.stdout
@@ -77,9 +81,9 @@ def simulate(n: int, seed: int, *, maxlen=5, minlen=None, nlabels=3, se=2, wide=
     behs = []
     for mm in re.finditer(r'<<\s*"BEH"', out):
         v, _ = tlaval.parse_prefix(out, mm.start())
-        _, vals, labs, labs2, cuts, cfgv, groups, plan, result, pref, sizes, codes = v
+        _, vals, labs, labs2, cuts, cfgv, groups, plan, result, pref, sizes, codes, engine = v
         behs.append({"vals": vals, "labs": labs, "labs2": labs2, "nlabels2": nlabels2, "cuts": cuts, "cfg": cfgv, "groups": groups, "plan": plan, "result": result,
-                     "pref": pref, "sizes": list(sizes), "codes": list(codes), "nlabels": nlabels, "se": se})
+                     "pref": pref, "engine": engine, "sizes": list(sizes), "codes": list(codes), "nlabels": nlabels, "se": se})
     return behs, info
 
 
@@ -103,6 +107,10 @@ def case_of(beh, table):
         "ddof": row["ddof"] or None, "split_every": beh["se"],
         "reindex": {"none": None, "true": True, "false": False}[beh["cfg"].get("reindex", "none")], "by_dask": bool(beh["cfg"].get("byDask", False)),
     }
+    if not beh["cfg"].get("arrDask", True):
+        case["chunks"] = None
+    if beh["cfg"].get("engine", "none") != "none":
+        case["engine"] = beh["cfg"]["engine"]
     if beh["cfg"]["hasExpected"]:
         case["req"] = [nl - i for i in range(1, nl + 1)]
     if beh["cfg"].get("two"):
@@ -146,7 +154,7 @@ def run_compose_case(beh: dict) -> dict:
         blockwise_out_of_scope = not _confined(case["codes"], eff)
         if eff != beh["sizes"]:
             drift.append(f"compose: rechunk_for_blockwise gives chunks {eff} where Rechunk.tla says {beh['sizes']}")
-    out["nontrivial"] = len(case["chunks"]) > 1 and any(case["codes"].count(c) > 1 for c in set(case["codes"]) if c >= 0)
+    out["nontrivial"] = (case["chunks"] is None or len(case["chunks"]) > 1) and any(case["codes"].count(c) > 1 for c in set(case["codes"]) if c >= 0)
     if "exc" in rec:
         if rec["exc"] not in redcase.CLEAN_REFUSALS:
             if not blockwise_out_of_scope:
@@ -163,6 +171,8 @@ def run_compose_case(beh: dict) -> dict:
         return out
     if plan_ev:
         ev = plan_ev[-1]
+        if ev.get("engine") != beh.get("engine") and "codes2" not in case:
+            drift.append(f"compose: engine {ev.get('engine')} where the spec's ChooseEngine gives {beh.get('engine')} case={json.dumps(case)}")
         if ev["method"] != spec_plan["method"]:
             drift.append(f"compose: strategy {ev['method']} where the spec resolves {spec_plan['method']} (planner prefers {ev.get('preferred')}, spec {beh['pref']}) case={json.dumps(case)}")
         elif bool(ev["reindex_blockwise"]) != bool(spec_plan["rb"]) and len(beh["groups"]) > 0:
@@ -225,7 +235,7 @@ def run_two_case(case: dict) -> dict:
         kw["expected_groups"] = (np.array([tab[t] for t in case["req"]]), np.array([tab[t] for t in case["req2"]]))
     rec = dict(case)
     try:
-        arr = da.from_array(array, chunks=(tuple(case["chunks"]),))
+        arr = da.from_array(array, chunks=(tuple(case["chunks"]),)) if case.get("chunks") is not None else array
         with dask.config.set(scheduler="synchronous", split_every=case.get("split_every") or 4):
             result, g1, g2 = groupby_reduce(arr, by1, by2, **kw)
             rec["lazy"] = bool(hasattr(result, "dask"))
